@@ -35,11 +35,37 @@ def extract_printers(ctx, classes):
             continue
         if f.cls.qual != q and cc.sem not in ('leaf', 'unknown'):
             pass
-        rets = returns_of(f.node)
-        if len(rets) != 1 or rets[0].value is None:
+        from ..dte import inline_helpers
+        tp = Table(prog, f, inline=inline_helpers(
+            prog, modules={CHECKS}, exclude={CHECKS + '._check'}),
+            handler_paths=False, quantifiers=False, max_depth=4)
+        outs = [p for p in tp.paths if p.outcome.kind == 'return'
+                and p.outcome.expr is not None]
+        if len(outs) != 1 or len(tp.paths) != 1:
+            # a printer whose text depends on conditions: every variant must
+            # be the verbatim form, which the single-path case establishes
+            texts = set()
+            for p in outs:
+                try:
+                    texts.add(shape_text(merge(segments(tp.expand(
+                        p.outcome.expr)))))
+                except Unknown:
+                    texts.add('?')
+            short = q.rsplit('.', 1)[-1]
+            ctx.ob('C15.FORMATS', False, ctx.where(f.module, f.node), f.qual,
+                   'conditional printer (%d paths)' % len(tp.paths),
+                   'the printed form of %s depends on conditions (%s): the '
+                   'text is rewritten for some values, so what is printed can '
+                   'parse back to a different check' % (
+                       short, ' | '.join(sorted(texts))[:160]))
             raise AnalysisError('%s has no single return' % f.qual)
+        value = tp.expand(outs[0].outcome.expr)
+        ret = ast.Pass()
+        ret.lineno = ret.end_lineno = outs[0].outcome.line
+        ret.col_offset = ret.end_col_offset = 0
+        rets = [ret]
         try:
-            segs = merge(segments(rets[0].value))
+            segs = merge(segments(value))
         except Unknown as e:
             raise AnalysisError('printer %s not recognised: %s' % (f.qual,
                                                                    e))
@@ -351,7 +377,9 @@ def check_roundtrip(ctx, pr, tf, model, pred, opens, closes):
 def check_dump(ctx):
     prog = ctx.prog
     f = prog.func(POLICY + '.Rules.__str__')
-    t = Table(prog, f)
+    from ..dte import inline_helpers
+    t = Table(prog, f, inline=inline_helpers(prog, modules={POLICY}),
+              comps=True, max_depth=4)
     W = ctx.where(f.module, f.node)
     true_ok = other_ok = ser_ok = False
     for p in t.paths:
@@ -400,8 +428,8 @@ def check_eq(ctx):
     def is_pair(c, a, b):
         e = c.expr
         return c.kind == 'test' and isinstance(e, ast.Compare) and \
-            isinstance(e.ops[0], ast.Eq) and {U(e.left), U(
-                e.comparators[0])} == {a, b}
+            isinstance(e.ops[0], ast.Eq) and {U(t.expand(e.left)), U(
+                t.expand(e.comparators[0]))} == {a, b}
     for p in t.paths:
         if p.outcome.kind != 'return' or p.outcome.expr is None:
             continue
@@ -453,12 +481,11 @@ def check(ctx):
         raise
     pred, rows, unknown, res = c01.accept_predicate(ctx, pstate)
     tf, en, paths = T.extract(ctx.prog)
-    opens = closes = None
-    for n, kind, y in getattr(tf, 'paren_loops', []):
-        if opens is None:
-            opens = kind
-        else:
-            closes = kind
+    sides = c01.paren_sides(en, paths)
+    op_ = sorted(k for k, sd in sides.items() if 'lstrip' in sd)
+    cl_ = sorted(k for k, sd in sides.items() if 'rstrip' in sd)
+    opens = op_[0] if len(op_) == 1 else None
+    closes = cl_[0] if len(cl_) == 1 else None
     if opens is None or closes is None:
         raise AnalysisError('paren peeling not recognised in the tokenizer')
     pr = pr0
